@@ -70,11 +70,13 @@ func replayTestBody(spec HarnessSpec) string {
 import (
 	"fmt"
 	"testing"
+
+	zzreplay "github.com/go-task/task/v3/internal/zzsym"
 )
 
 func TestZZReplay(t *testing.T) {
 	defer func() {
-		if r := recover(); r != nil {
+		if r := recover(); r != nil && !zzreplay.IsAssumeFalse(r) {
 			fmt.Printf("ZZ-PANIC %%v\n", r)
 		}
 		fmt.Println("ZZ-END")
